@@ -20,6 +20,7 @@ FAMILIES = {
     "floodBc": {"quick": 50, "thorough": 500},     # hostile scripted server floods a real client (PUSH_PROMISE, 1xx, tiny/empty DATA, PING/SETTINGS, CONTINUATION, promise+reset)
     "mutateB": {"quick": 600, "thorough": 20000},   # C08 only: the scripted peer's byte stream corrupted (bit flips, replaced / dropped / doubled octets) after the preface, both roles, any fragmentation
     "rstRaceBc": {"quick": 150, "thorough": 3000},   # complete response, then the peer's RST_STREAM(X), then the application's own send_reset(Y): X surfaces, never Y
+    "pushRaceBs": {"quick": 150, "thorough": 3000},  # server pushes vs a scripted client that refuses (RST_STREAM) / credits (WINDOW_UPDATE) the promised streams while they are reserved, answered-but-queued, or waiting for a concurrency slot (client MAX_CONCURRENT_STREAMS 0 / 1 / raised late)
     "wuBurstBs": {"quick": 40, "thorough": 300},   # 40-130 streams owe a WINDOW_UPDATE at once while the endpoint's writes are blocked and its write buffer is nearly full
     "inlineA": {"quick": 600, "thorough": 12000},   # C20: handle operations executed INSIDE the read / write / flush callbacks of the connection task (parked handles), real client <-> real server
     "threadsA": {"quick": 1500, "thorough": 40000},   # C20: REAL parallel executions: connections and every request half on their own OS threads; handle call + log entry atomic under the transport's mutex, so the trace is a valid linearization
@@ -34,7 +35,7 @@ SEND_SLICE = {"module": "MC_Send", "cfg_quick": "MC_Send_quick.cfg", "cfg_thorou
               "constants": "2 streams, IW=2 CW=3 MF=2 units, sends {3}, WU {2}, SETTINGS {0,3}, reserve {2}, 1 reset; every interleaving with a frame parked in the codec",
               "timeout_thorough": 2400, "coverage": False}
 
-WIRE_AB = ["mixA", "mixAd", "bpReset", "flowBs", "flowBc", "capRace", "ctlB", "concBc", "faultA", "goawayBc", "shutdownA", "abuseB", "shutdownBs", "floodBs", "floodBc", "wuBurstBs", "rstRaceBc"]
+WIRE_AB = ["mixA", "mixAd", "bpReset", "flowBs", "flowBc", "capRace", "ctlB", "concBc", "faultA", "goawayBc", "shutdownA", "abuseB", "shutdownBs", "floodBs", "floodBc", "wuBurstBs", "rstRaceBc", "pushRaceBs"]
 
 RECV_SLICE = {"module": "MC_Recv", "cfg_quick": "MC_Recv_quick.cfg", "cfg_thorough": "MC_Recv_thorough.cfg",
               "constants": "2 streams, IW=6 CW=8, DATA {0,1,6} x padding {0,1} x END_STREAM, release {1,2}, 1 handle drop, 1 reset either side, target {6,10}, SETTINGS {1,8} applied at the peer's ACK; legal peer; leak rules at every quiescent state",
